@@ -65,8 +65,21 @@ def _mk(kind, **kw):
     return cls(printitn=0, **kw)
 
 
-@ob("C13", params=[dict(kind=k, max_iters=mi, max_fails=mf, lb=lb) for k in ("sgd", "adam", "adagrad") for mi, mf in ((1, 0), (2, 0), (2, 1), (3, 1)) for lb in ("neginf", "zero")
-                   if not (mi == 3 and lb == "zero") and not (k == "adam" and lb == "zero" and mi > 1)],
+def _loop_params():
+    out = []
+    for k in ("sgd", "adam", "adagrad"):
+        for mi, mf in ((1, 0), (2, 0), (2, 1), (3, 1)):
+            for lb in ("neginf", "zero"):
+                if (mi == 3 and lb == "zero") or (k == "adam" and lb == "zero" and mi > 1):
+                    continue
+                d = dict(kind=k, max_iters=mi, max_fails=mf, lb=lb)
+                if k == "adagrad" and lb == "zero" and (mi, mf) == (2, 1):
+                    d["_tier"] = "thorough"  # 2600 paths, 2.5 min on its own
+                out.append(d)
+    return out
+
+
+@ob("C13", params=_loop_params(),
     max_paths=20000, wall_s=600, validate=False,
     bounds="2x2 rank-1 model with symbolic factors; epochs of one iteration; max_iters <= 3, max_fails in {0,1}; objective estimates and gradients are fresh symbols (stubbed estimator); lower bound -inf or 0")
 def solve_loop(E, kind, max_iters, max_fails, lb):
